@@ -90,7 +90,7 @@ for m, g in [('c01_u_add', 'BUint overflowing/checked/wrapping/saturating_add, c
              ('c01_i_sub', 'BInt overflowing/checked/wrapping/saturating_sub, borrowing_sub, *_sub_unsigned'),
              ('c01_i_neg', 'BInt *_neg, *_abs, unsigned_abs, abs_diff, midpoint')]:
     std('C01', m, LIN_Q, LIN_T, group=g)
-std('C01', 'c01_strict_ok', LIN_Q, LIN_T, group='strict_add/sub/neg/abs/add_signed/add_unsigned/sub_unsigned return the value when representable')
+std('C01', 'c01_strict_ok', LIN_Q, LIN_T, group='strict_add/sub/neg/abs/add_signed/add_unsigned/sub_unsigned and unchecked_add/sub return the value when representable')
 std('C01', 'c01_strict_panic', LIN_Q, LIN_T, group='strict_* panic on every overflowing input', kind='panic')
 
 
